@@ -170,6 +170,17 @@ Section PhraseOk.
       pose proof (seek_sub_head t mt li Hwf). lia.
   Qed.
 
+  (* a target below the current document (what Exclude::contains and a union's out-of-horizon loop ask): never Found,
+     and the valid state is kept -- the code, without its debug_assert, meets the clause c_danger_below of the contract *)
+  Theorem phrase_seek_danger_below s l t : R_p s l -> t < p_doc I s ->
+    exists b, fst (p_seek_danger I count_of scoring t s) = SdLower b /\ R_p (snd (p_seek_danger I count_of scoring t s)) l.
+  Proof.
+    intros [H0 [li [HR [Hh [-> Hc]]]]] Hlt. unfold p_seek_danger, p_doc in *.
+    destruct (c_danger_below _ _ _ _ CI _ _ _ HR Hlt) as [b [Hb HR']].
+    destruct (seek_danger I t (p_inner I s)) as [r i']. cbn [fst snd] in *. subst r. exists b. cbn [fst snd]. split; [reflexivity|].
+    split; [exact H0|]. exists li. cbn [p_inner p_count]. repeat split; assumption.
+  Qed.
+
   (* score path-independence for the phrase scorer: in any two valid states on the same document (however reached:
      advance, seek, or a seek_danger hit) the phrase count read by score() / term_freq is the same -- it is the
      document's phrase count *)
